@@ -43,6 +43,7 @@ class SelWorld(World):
         self.chan.sent = self.chan.script           # what is sent is what the actor receives
         self.spawned = []
         self.calls = []
+        self.gone = None          # the reply channel (oneshot number) whose requester has gone away: sending the reply fails
 
     def layout_of(self, interp, v):
         v = interp.deref_all(v)
@@ -83,6 +84,11 @@ class SelWorld(World):
 
     def hook(self, world, interp, name, args, t, body):
         seg = last_seg(name)
+        if 'oneshot' in name and seg == 'send' and args and self.gone is not None:
+            tx = interp.deref_all(args[0])
+            if tx is not None and tx[0] == 'otx' and tx[1] == self.gone:
+                self.trace.append(('reply-failed', tx[1]))
+                return err(args[1])          # (the receiver was dropped: the value comes back)
         if name.startswith('flume::') and seg in ('bounded', 'unbounded'):
             return ('tuple', [Cell(('chan', self.chan)), Cell(('chan', self.chan))])
         if name in ('tokio::task::spawn::spawn', 'tokio::task::spawn', 'tokio::spawn') and args:
@@ -140,7 +146,7 @@ def check_selector_actor(ctx, facts, rule):
         if not level:
             raise Unmodelled('Consistency::One not found')
 
-        def run(choices):
+        def run(choices, gone_request=None):
             world = SelWorld(facts)
             it = Interp(facts, Order({}), opaque_call=world.call, step_limit=400000)
             it.poll_hook = world.poll
@@ -184,13 +190,23 @@ def check_selector_actor(ctx, facts, rule):
             # (d) the actor's loop over the queue
             world.trace[:] = []
             world.calls[:] = []
+            if gone_request is not None:
+                world.gone = dict(gets)[gone_request]
             it.poll_coroutine(('ref', Cell(actor)), 0)
             replies = {e[1]: e[2] for e in world.trace if e[0] == 'reply'}
             return it.oracle_log, (gets, replies, list(world.calls))
         results = absint.explore(run)
+        # the same queue once more, with the requester of g2 gone by the time the actor replies (a caller that timed out or was cancelled)
+        results_gone = absint.explore(lambda ch: run(ch, gone_request='g2'))
     except (Unmodelled, absint.NeedChoice, absint.PanicPath, IndexError, TypeError, KeyError, AttributeError, RecursionError) as e:
         return _fallback(ctx, rule, e)
     site_ = '%s:%s' % (start.file, start.line)
+    _judge(ctx, rule, site_, results, None)
+    _judge(ctx, rule, site_, results_gone, 'g2')
+    return True
+
+
+def _judge(ctx, rule, site_, results, gone):
     latest = {}
     cur = None
     for kind, x in PLAN:
@@ -214,6 +230,8 @@ def check_selector_actor(ctx, facts, rule):
                                'a data centre or node that left must not stay selectable, the total must be the number of members)' % (
                                    {k: sorted(v) for k, v in sorted(c_['layout'].items())}, c_['total']))
         for g, txid in gets:
+            if g == gone:
+                continue          # (nobody is waiting for this answer)
             want_l, want_t = expected_layout(latest[g])
             want_sel = sorted({x for v in want_l.values() for x in v} - {LOCAL})
             r = replies.get(txid)
@@ -241,6 +259,15 @@ def check_selector_actor(ctx, facts, rule):
                                                           ': nodes that left are still selected'))
     LAB = {'g1': 'first request after the first update', 'g2': 'request after an update that replaces one data centre by another', 'g3': 'second request after that update (cache)',
            'g4': 'request after every other node left', 'g5': 'request after a node joined the empty cluster', 'g6': 'request after a further node joined (every cached node is still a member)'}
+    if gone is not None:
+        # one obligation: the actor outlives a requester that went away — every later update and request is served as before
+        later = [g for g in ('g3', 'g4', 'g5', 'g6') if g in bad]
+        good = seen > 0 and not later and 'panic' not in bad and 'layout' not in bad
+        ctx.ob(rule, 'selector-actor|a requester that went away', good, site_,
+               'the requester of one request is gone when the actor replies: every later update and request is still served (%d path(s))' % seen if good else
+               'after a reply could not be delivered (its requester timed out / was cancelled): %s — the actor must outlive its requesters; once it stops, `set_nodes` fails '
+               'and the membership watcher that awaits it stops publishing membership changes' % (bad.get(later[0]) if later else bad.get('panic') or bad.get('layout') or 'no path'))
+        return
     if 'panic' in bad:
         ctx.ob(rule, 'selector-actor|no-panic', False, site_, bad['panic'])
     ctx.ob(rule, 'selector-actor|layout-is-the-latest-membership', seen > 0 and 'layout' not in bad, site_,
@@ -249,4 +276,3 @@ def check_selector_actor(ctx, facts, rule):
         good = seen > 0 and g not in bad
         ctx.ob(rule, 'selector-actor|%s' % LAB[g], good, site_,
                '%s: answered with a selection made from the latest update (%d path(s))' % (LAB[g], seen) if good else bad.get(g, 'no path'))
-    return True
